@@ -413,6 +413,17 @@ pub fn der_value(v: &Val, ty: &str) -> Option<Vec<u8>> {
             c.extend(apply_tag(&der_value(&ms[2], "Cho2")?, 2, 2, true));
             tlv(0, true, 16, &c)
         }
+        (Val::Seq(ms), "Sq1") if ms.len() == 1 => tlv(0, true, 16, &apply_tag(&der_value(&ms[0], "INTEGER")?, 2, 0, false)),
+        (Val::Seq(ms), "SqN") if ms.len() == 2 => {
+            let mut c = apply_tag(&der_value(&ms[0], "Sq1")?, 2, 0, false);
+            c.extend(apply_tag(&der_value(&ms[1], "BOOLEAN")?, 2, 1, false));
+            tlv(0, true, 16, &c)
+        }
+        (Val::Choice(alt, inner), "Cho3") => match alt.as_str() {
+            "s" => apply_tag(&der_value(inner, "Sq1")?, 2, 0, false),
+            "n" => apply_tag(&der_value(inner, "NULL")?, 2, 1, false),
+            _ => return None,
+        },
         (Val::Seq(ms), "SqD") if ms.len() == 4 => {
             // DER: a component equal to its DEFAULT is absent
             let mut c = vec![];
@@ -432,6 +443,7 @@ pub fn der_value(v: &Val, ty: &str) -> Option<Vec<u8>> {
             let et = match t {
                 "Lst" => "INTEGER",
                 "LstB" | "SEQUENCE OF BOOLEAN" => "BOOLEAN",
+                "LstS" => "Sq1",
                 _ => return None,
             };
             let mut c = vec![];
@@ -763,6 +775,15 @@ impl Prop for C07 {
         add("sequence", "SqD", dp, "{ a 1, b FALSE, c 2, d FALSE }".into(), sqd(1, false, 2, false), "defaults-all-given".into());
         add("sequence", "SqD", dp, "{ a 5, b TRUE, c 7, d FALSE }".into(), sqd(5, true, 7, false), "defaults-given-equal".into());
         add("sequence", "SqD", dp, "{ c 0, d TRUE }".into(), sqd(5, true, 0, true), "defaults-mixed".into());
+        // one-member SEQUENCE values read like OBJECT IDENTIFIER values ("{ x 1 }"): alone and nested in CHOICE / SEQUENCE / SEQUENCE OF values
+        let op = "Sq1 ::= SEQUENCE { x INTEGER }\nSqN ::= SEQUENCE { i Sq1, k BOOLEAN }\nCho3 ::= CHOICE { s Sq1, n NULL }\nLstS ::= SEQUENCE OF Sq1";
+        let sq1 = |n: i64| Val::Seq(vec![Val::Int(n.to_string())]);
+        add("sequence", "Sq1", op, "{ x 1 }".into(), sq1(1), "1-member-oid-lookalike".into());
+        add("sequence", "Sq1", op, "{ x -1 }".into(), sq1(-1), "1-member-negative".into());
+        add("sequence", "SqN", op, "{ i { x 1 }, k TRUE }".into(), Val::Seq(vec![sq1(1), Val::Bool(true)]), "nested-1-member".into());
+        add("choice", "Cho3", op, "s:{ x 1 }".into(), Val::Choice("s".into(), Box::new(sq1(1))), "inner-1-member-sequence".into());
+        add("choice", "Cho3", op, "n:NULL".into(), Val::Choice("n".into(), Box::new(Val::Null)), "null-alternative".into());
+        add("sequence-of", "LstS", op, "{ { x 1 }, { x 2 } }".into(), Val::List(vec![sq1(1), sq1(2)]), "of-1-member-sequences".into());
         add("sequence-of", "Lst", cp, "{ 1, 2, 3 }".into(), Val::List(vec![Val::Int("1".into()), Val::Int("2".into()), Val::Int("3".into())]), "n=3".into());
         add("sequence-of", "Lst", cp, "{ -1 }".into(), Val::List(vec![Val::Int("-1".into())]), "n=1".into());
         add("sequence-of", "Lst", cp, "{ }".into(), Val::List(vec![]), "n=0".into());
